@@ -105,33 +105,47 @@ static size_t vf_put_ulong(char *o, unsigned long v)
 }
 static int vf_sprintf(char *out, const char *fmt, ...)
 {
+    /* general conversion syntax %[0][width][.precision][l]{d,i,u,x,s,g}: equivalent respellings (e.g. %1.15g vs %.15g) select the same model */
     va_list ap; size_t o = 0, f = 0;
     va_start(ap, fmt);
     while (fmt[f] != 0) {
+        int zero = 0, lng = 0, prec = -1; size_t width = 0, start, len, pad; char conv;
         if (fmt[f] != '%') { out[o++] = fmt[f++]; continue; }
         f++;
-        if (fmt[f] == 'd' || fmt[f] == 'i') {
-            int v = va_arg(ap, int); unsigned long m;
-            if (v < 0) { out[o++] = '-'; m = (unsigned long)(-(long)v); } else m = (unsigned long)v;
-            o += vf_put_ulong(out + o, m); f++;
-        } else if (fmt[f] == 'l' && fmt[f + 1] == 'u') {
-            o += vf_put_ulong(out + o, va_arg(ap, unsigned long)); f += 2;
-        } else if (fmt[f] == 's') {
+        if (fmt[f] == '0') { zero = 1; f++; }
+        while (fmt[f] >= '0' && fmt[f] <= '9') { width = width * 10 + (size_t)(fmt[f] - '0'); f++; }
+        if (fmt[f] == '.') { f++; prec = 0; while (fmt[f] >= '0' && fmt[f] <= '9') { prec = prec * 10 + (fmt[f] - '0'); f++; } }
+        if (fmt[f] == 'l') { lng = 1; f++; }
+        conv = fmt[f++];
+        start = o;
+        if (conv == 'd' || conv == 'i') {
+            long v = lng ? va_arg(ap, long) : (long)va_arg(ap, int); unsigned long m;
+            if (v < 0) { out[o++] = '-'; m = (unsigned long)(-v); } else m = (unsigned long)v;
+            o += vf_put_ulong(out + o, m);
+        } else if (conv == 'u') {
+            o += vf_put_ulong(out + o, lng ? va_arg(ap, unsigned long) : (unsigned long)va_arg(ap, unsigned));
+        } else if (conv == 's') {
             const char *s = va_arg(ap, const char *); size_t k = 0;
             while (s[k] != 0) out[o++] = s[k++];
-            f++;
-        } else if (fmt[f] == '0' && fmt[f + 1] == '4' && fmt[f + 2] == 'x') {
-            unsigned v = (unsigned)va_arg(ap, unsigned char); int sh; /* CBMC does not apply the default argument promotions */
-            for (sh = 12; sh >= 0; sh -= 4) { unsigned d = (v >> sh) & 0xF; out[o++] = (char)(d < 10 ? '0' + d : 'a' + d - 10); }
-            f += 3;
-        } else if (fmt[f] == '1' && fmt[f + 1] == '.' && fmt[f + 2] == '1' && (fmt[f + 3] == '5' || fmt[f + 3] == '7') && fmt[f + 4] == 'g') {
-            int which = fmt[f + 3] == '7'; size_t k = 0; double d = va_arg(ap, double);
+        } else if (conv == 'x') {
+            unsigned v = (unsigned)va_arg(ap, unsigned char); int sh, started = 0;     /* CBMC does not apply the default argument promotions: the library passes an unsigned char */
+            for (sh = 4; sh >= 0; sh -= 4) { unsigned d = (v >> sh) & 0xF; if (d != 0 || started || sh == 0) { out[o++] = (char)(d < 10 ? '0' + d : 'a' + d - 10); started = 1; } }
+        } else if (conv == 'g' && (prec == 15 || prec == 17)) {
+            int which = prec == 17; size_t k = 0; double d = va_arg(ap, double);
             (void)d; vf_g_calls++;
             while (k < 25 && IN.g_text[which][k] != 0) out[o++] = (char)IN.g_text[which][k++];
-            f += 5;
         } else {
             VF_BOUND(0, "sprintf conversion not modelled");
             __CPROVER_assume(0);
+        }
+        /* minimum field width: pad on the left (zeros if the 0 flag was given and the conversion is numeric) */
+        len = o - start;
+        if (len < width) {
+            size_t k;
+            pad = width - len;
+            for (k = len; k > 0; k--) out[start + pad + k - 1] = out[start + k - 1];
+            for (k = 0; k < pad; k++) out[start + k] = (zero && conv != 's') ? '0' : ' ';
+            o += pad;
         }
     }
     va_end(ap);
